@@ -223,6 +223,45 @@ def qseq (m : Nat) (toks : List String) : String :=
   let order := drainHeap (s.heap.length + 1) s.heap []
   s!"size={s.heap.length} order=[{" ".intercalate (order.map toString)}]"
 
+/-! ## the heap alone: `gheap <op>…`, and `HeapKey.CompareTo`: `hkcmp a b`
+
+`p<rank>` = `heap.Push` of a new element (the i-th push creates element i), `x` = `heap.Pop`, `r<i>` =
+`heap.Remove(i)` on a `generalheap.Heap[timed.HeapKey, int]`.  The answer is the layout of the slice after
+every operation (for `x` / `r<i>` preceded by the element that came out), computed with the model's own
+`Heap.push` / `Heap.pop` / `Heap.removeAt`. -/
+
+def showLayout (h : List Elem) : String := " ".intercalate (h.map (fun e => toString e.serial))
+
+def gheapStep (st : List Elem × Nat × List String) (tok : String) : List Elem × Nat × List String :=
+  match tok.toList with
+  | 'p' :: rest =>
+    match qseqRank (String.ofList rest) with
+    | some rank =>
+      let h' := Heap.push st.1 { serial := st.2.1, due := rank, id := none, kind := .plain, tag := st.2.1 }
+      (h', st.2.1 + 1, showLayout h' :: st.2.2)
+    | none => (st.1, st.2.1, "bad" :: st.2.2)
+  | ['x'] =>
+    match Heap.pop st.1 with
+    | some (e, h') => (h', st.2.1, s!"{e.serial}<{showLayout h'}" :: st.2.2)
+    | none => (st.1, st.2.1, "empty" :: st.2.2)
+  | 'r' :: rest =>
+    match (String.ofList rest).toNat? with
+    | some i =>
+      match Heap.removeAt st.1 i with
+      | some (e, h') => (h', st.2.1, s!"{e.serial}<{showLayout h'}" :: st.2.2)
+      | none => (st.1, st.2.1, "none" :: st.2.2)
+    | none => (st.1, st.2.1, "bad" :: st.2.2)
+  | _ => (st.1, st.2.1, "bad" :: st.2.2)
+
+def gheap (toks : List String) : String :=
+  "|".intercalate (toks.foldl gheapStep ([], 0, [])).2.2.reverse
+
+/-- `HeapKey.CompareTo` on two rank tokens: the order of the model's clocks. -/
+def hkcmp (a b : String) : String :=
+  match qseqRank a, qseqRank b with
+  | some x, some y => if x < y then "-1" else if y < x then "1" else "0"
+  | _, _ => "bad-op"
+
 def stepLine (d : DSt) (toks : List String) : DSt × String :=
   match toks with
   | ["new", w, m] =>
@@ -245,6 +284,9 @@ def stepLine (d : DSt) (toks : List String) : DSt × String :=
   | "cancelrace" :: _ => (d, "done")
   | "qsess" :: _ => (d, "done")
   | "qpanic" :: _ => (d, "done")
+  | "gheaps" :: _ => (d, "done")
+  | "gheap" :: rest => (d, gheap rest)
+  | ["hkcmp", a, b] => (d, hkcmp a b)
   | "qseq" :: m :: rest =>
     match m.toNat? with
     | some m => (d, qseq m rest)
